@@ -128,7 +128,7 @@ class C15(Engine):
                 # a fully seeded register file: every register the simulator lets the user set (index registers at 0x80..0xff
                 # are what makes base+index cross the top of the address space)
                 regs = [[n, rng.pick([0xff, 0x80, 0x90, 0xfe, 0x01, 0xffff, 0x8000, 0x7f, 0x100]) if rng.chance(2, 3) else rng.pick(VALUES)]
-                        for n in CPU_REGS[cpu] if n not in ("pc",)][:20]
+                        for n in CPU_REGS[cpu] if n not in ("pc",)]
             pc = base // (unit if cpu in ("avr8", "lc3", "f100_l", "ebpf") else 1)
             if cpu == "ebpf":
                 pc = base // 8
@@ -140,6 +140,9 @@ class C15(Engine):
                  # the unrelated history may end with a free run that the user interrupted with Ctrl-C
                  "hist_sigint": rng.pick([1, 2, 5]) if (rng.chance(1, 3) and cpu not in ("riscv", "mips", "ebpf")) else 0},
             ]
+            # (a variant that re-establishes the visible state without reset() was tried and withdrawn: simulators
+            # legitimately keep architectural state that dump_registers() does not show - the TMS1000 status latch,
+            # for one - so equal dumps do not imply equal starting states)
             if rng.chance(1, 3) and cpu not in ("riscv", "mips", "ebpf"):
                 variants.append({"kind": 2, "fill": 0, "seed": 1, "usec": rng.pick([1, 1000, 999999, 1000000]), "sig_k": rng.pick([0, 0, 1, 2, 5, 20])})
             cases.append({"cpu": cpu, "wins": wins, "pc": pc, "regs": regs, "pushes": pushes,
@@ -297,7 +300,7 @@ class C15(Engine):
                 elif a[5] != b[5] or a[6] != b[6]:
                     comp = "second-step"
                 if comp:
-                    how = "history" if (a[0] == 1) != (b[0] == 1) else "heap-fill"
+                    how = "history" if (a[0] in (1, 3)) != (b[0] in (1, 3)) or a[0] != b[0] else "heap-fill"
                     res.viol("%s:nonrepeatable:%s:%s" % (cpu, comp, how), a=a[4][0][-300:], b=b[4][0][-300:], rets=(a[3], b[3], a[5], b[5]), case=trim(case, 160))
                     break
 
